@@ -342,7 +342,7 @@ def check_job_events(events, label, monitors):
                 want = any(p != 'Success' for p in e['parents'].values())
                 if e['cancelled1'] != want:
                     out.append(('cancelled-flag-wrong-at-ready', f'cancelled={e["cancelled1"]} but some-parent-not-success={want}; {where}'))
-        if ('C07' in monitors or 'C05' in monitors) and s1 in ('Creating', 'Running') and s0 not in ('Creating', 'Running'):
+        if ('C07' in monitors or 'C05' in monitors) and s1 in ('Creating', 'Running') and s0 != s1:
             if not e['always_run'] and (e['cancelled0'] or e['group_cancelled']):
                 out.append(('cancelled-job-started', where))
         if 'C41' in monitors and not e['committed'] and s1 != 'Pending':
